@@ -12,8 +12,16 @@ import (
 // lengths of every container, map entries sorted by encoded key, strings byte-exact, floats by
 // bit pattern with -0 normalised to +0 (Go's == and every derived function identify them).
 // CanonExact keeps the sign of zero.
-func Canon(v reflect.Value) string      { var sb strings.Builder; canon(&sb, addressable(v), false, 0); return sb.String() }
-func CanonExact(v reflect.Value) string { var sb strings.Builder; canon(&sb, addressable(v), true, 0); return sb.String() }
+func Canon(v reflect.Value) string {
+	var sb strings.Builder
+	canon(&sb, addressable(v), false, 0)
+	return sb.String()
+}
+func CanonExact(v reflect.Value) string {
+	var sb strings.Builder
+	canon(&sb, addressable(v), true, 0)
+	return sb.String()
+}
 
 // CanonAny encodes an interface value of static type t.
 func CanonAny(x any, t reflect.Type) string { return Canon(root(x, t)) }
